@@ -7,7 +7,11 @@ test -f /opt/veriftools/tla/tla2tools.jar
 /venv/bin/python -c "import xlcalculator" 
 mkdir -p .work evidence replay
 cd spec
+command -v apalache-mc >/dev/null
 for m in *.tla; do
+  case "$m" in *Apa.tla)   # Apalache instances (EXTENDS Apalache, which only Apalache's own jar provides): its parser and type checker
+    apalache-mc typecheck --out-dir=../.work/apa-setup "$m" > ../.work/sany.out 2>&1 || { cat ../.work/sany.out; echo "apalache typecheck failed on $m"; exit 2; }
+    rm -rf ../.work/apa-setup; continue;; esac
   java -cp /opt/veriftools/tla/tla2tools.jar:/opt/veriftools/tla/CommunityModules-deps.jar tla2sany.SANY "$m" > ../.work/sany.out 2>&1 || { cat ../.work/sany.out; echo "SANY failed on $m"; exit 2; }
   if grep -q "Semantic errors\|Could not parse\|Fatal errors\|\*\*\* Errors" ../.work/sany.out; then cat ../.work/sany.out; echo "SANY failed on $m"; exit 2; fi
 done
